@@ -38,7 +38,7 @@ Definition assumed : list (string * list string) := [
     "runCtx, cancel := context.WithCancel(context.WithoutCancel(ctx))";
     "e.stoppers.Set(plan.ID, cancel)";                                                           (* register the stopper BEFORE the spawn *)
     "e.waiters.Set(plan.ID, make(chan struct{}))";                                               (* register the waiter BEFORE the spawn *)
-    "context.Pool(ctx).Submit(ctx, func#0)";                                                     (* spawn the engine goroutine *)
+    "context.Pool(ctx).Submit(context.WithoutCancel(ctx), func#0)";
     "func#0()";
     "{";
     "defer func#0()";
@@ -151,19 +151,28 @@ Proof. vm_compute. reflexivity. Qed.
 Lemma runPlan_registers_before_submit :
   ordered ["runCtx, cancel := context.WithCancel(context.WithoutCancel(ctx))";
            "e.stoppers.Set(plan.ID, cancel)"; "e.waiters.Set(plan.ID, make(chan struct{}))";
-           "context.Pool(ctx).Submit(ctx, func#0)";
+           "context.Pool(ctx).Submit(context.WithoutCancel(ctx), func#0)";
            "defer func#0()"; "waiter, _ := e.waiters.Get(plan.ID)"; "close(waiter)"; "e.waiters.Del(plan.ID)";
            "e.runner(plan.Name, req)"] (toks "runPlan") = true /\
   count "e.stoppers.Set(plan.ID, cancel)" (toks "runPlan") = 1 /\
   count "e.waiters.Set(plan.ID, make(chan struct{}))" (toks "runPlan") = 1 /\
-  count "context.Pool(ctx).Submit(ctx, func#0)" (toks "runPlan") = 1 /\
+  count "context.Pool(ctx).Submit(context.WithoutCancel(ctx), func#0)" (toks "runPlan") = 1 /\
   (* nothing but the two registrations stands between the context creation and the Submit *)
   firstn 3 (drop_until "runCtx, cancel := context.WithCancel(context.WithoutCancel(ctx))" (toks "runPlan"))
     = ["e.stoppers.Set(plan.ID, cancel)"; "e.waiters.Set(plan.ID, make(chan struct{}))";
-       "context.Pool(ctx).Submit(ctx, func#0)"] /\
+       "context.Pool(ctx).Submit(context.WithoutCancel(ctx), func#0)"] /\
   (* and nothing follows the Submit call in runPlan itself: the last tokens are the literal's and the function's braces *)
-  ordered ["e.stoppers.Set(plan.ID, cancel)"] (drop_until "context.Pool(ctx).Submit(ctx, func#0)" (toks "runPlan")) = false /\
-  ordered ["e.waiters.Set(plan.ID, make(chan struct{}))"] (drop_until "context.Pool(ctx).Submit(ctx, func#0)" (toks "runPlan")) = false.
+  ordered ["e.stoppers.Set(plan.ID, cancel)"] (drop_until "context.Pool(ctx).Submit(context.WithoutCancel(ctx), func#0)" (toks "runPlan")) = false /\
+  ordered ["e.waiters.Set(plan.ID, make(chan struct{}))"] (drop_until "context.Pool(ctx).Submit(context.WithoutCancel(ctx), func#0)" (toks "runPlan")) = false.
+Proof. vm_compute. repeat split; reflexivity. Qed.
+
+(* runPlan: the run is submitted with a context the caller cannot cancel (fix 5e33fe2: with the bare `ctx`, a
+   Context cancelled between Read and Submit made the pool drop the run while Start returned nil and the waiter
+   stayed registered); no Submit with the bare ctx as first argument exists *)
+Lemma runPlan_submit_ctx_not_cancellable :
+  count "context.Pool(ctx).Submit(context.WithoutCancel(ctx), func#0)" (toks "runPlan") = 1 /\
+  count "context.Pool(ctx).Submit(ctx, func#0)" (toks "runPlan") = 0 /\
+  List.length (filter (String.prefix "context.Pool(ctx).Submit(") (toks "runPlan")) = 1.
 Proof. vm_compute. repeat split; reflexivity. Qed.
 
 (* Start: the lock is taken first and released by defer; under it: waiters lookup, Read, validation, runPlan *)
